@@ -11,7 +11,9 @@ EXPLANATION = (
     "C11.GUARD: the consumer is only ever called with the result of IndiMessage.from_string. C11.CONTAIN: with the two parser calls made "
     "to raise (ParseError / any Exception), no path lets the exception out of process. C11.BOUND: with the threshold enabled every break "
     "out of the loop follows a failed 'length > threshold' test with no buffer write in between, so at most threshold characters are "
-    "retained. C11.NOGROW: the cleanup functions only assign suffixes of the buffer or the empty string."
+    "retained. C11.RECOVER: a complete (well-formed) element that the message parser rejects is consumed instead of blocking the head of the "
+    "buffer. C11.NOGROW: the cleanup functions only assign suffixes of the buffer or the empty string; a path that leaves the buffer untouched "
+    "has established that the earliest known tag (or the only '<') is at position 0. C11.AUX: no cached scan state survives a truncation."
 )
 NOT_DECIDED = "that junk which does not imitate a protocol element is skipped promptly, and recovery after a corrupt element (both depend on what expat accepts as a prefix)."
 ASSUMPTIONS = [
